@@ -268,6 +268,25 @@ class Ctx:
             return None if a is None or b is None else ('phi', e[1], a, b)
         if kx == 'sig':
             return self.project_wire(e, k, depth)
+        if kx == 'call' and e[1] == ('name', 'Cat') and len(e[2]) == 1 and e[2][0][0] == 'listacc' and not e[3] and k[0] == 'idx':
+            # Cat(xs) with xs filled by one append per iteration of the loop that k indexes (an empty list before it, every
+            # iteration appends exactly one 1-bit value): position k of the list is the value appended in iteration k
+            la = self.t.lists.get(e[2][0][1])
+            L = self.t.loops.get(k[1])
+            if la is not None and L is not None and not la.home and len(la.items) == 1 and L.kind in ('enum', 'seq', 'range') and \
+                    not getattr(L, "reversed", False) and (L.kind != 'range' or self.norm(L.bounds[0]) == ('const', 0)):
+                item, gen, ln = la.items[0]
+                item = self.norm(item)
+                if tuple(gen) == (('for', k[1]),) and (item[0] == 'cmp' or self.w.bit(item)) and getattr(la, "init_len", 0) == 0:
+                    return item
+            return None
+        if kx == 'call' and e[1] == ('name', 'Cat') and len(e[2]) == 1 and e[2][0][0] == 'gen' and not e[3] and len(e[2][0][3]) == 1:
+            # Cat(f(x) for x in SEQ) with one-bit elements: bit k is f(SEQ[k])
+            tgt, it, ifs = e[2][0][3][0]
+            elt = e[2][0][2]
+            if not ifs and tgt[0] == 'bv' and it[0] in ('attr', 'name') and (elt[0] == 'cmp' or self.w.bit(elt)):
+                return self.norm(ir.subst(elt, lambda x: ('sub', it, k) if x == tgt else None))
+            return None
         if kx in ('attr', 'sub') and not (kx == 'sub' and e[2][0] == 'slice'):
             return ('sub', e, k)
         return None
@@ -469,6 +488,38 @@ class Ctx:
         for (dom, k), ds in self.groups.items():
             if k == key and (domain is None or dom == domain):
                 out.extend(ds)
+        return out
+
+    def drivers_elsewhere(self, target):
+        """Drivers of the same target shape under *another* generation loop (the target with its loop indices abstracted):
+        the signal is driven, but in a loop whose index range the rule cannot identify with the one it follows."""
+        def abstract(e):
+            return ir.subst(e, lambda x: ('name', '<i>') if x[0] == 'idx' else (('name', '<item>') if x[0] == 'item' else None))
+        want = abstract(self.norm(target))
+        out = []
+        for key, ds in self.groups.items():
+            t = self.tir[key]
+            if t != self.norm(target) and abstract(t) == want:
+                out.extend(ds)
+        if not out:
+            # item-based spelling: for f in SEQ: f.x.eq(...)  against  SEQ[i].x
+            tail = []
+            e = self.norm(target)
+            while e[0] == 'attr':
+                tail.append(e[2])
+                e = e[1]
+            if e[0] == 'sub' and e[2][0] == 'idx' and tail:
+                for key, ds in self.groups.items():
+                    t, tl = self.tir[key], []
+                    while t[0] == 'attr':
+                        tl.append(t[2])
+                        t = t[1]
+                    if tl == tail and t[0] == 'item' and t[1] in self.t.loops:
+                        Lp = self.t.loops[t[1]]
+                        seqs = [self.norm(Lp.seq)] if getattr(Lp, "seq", None) is not None else []
+                        it = self.norm(Lp.iter)
+                        if e[1] in seqs or any(x == e[1] for x in ir.walk(it)):
+                            out.extend(ds)
         return out
 
     def domains_of(self, target):
